@@ -109,6 +109,23 @@ fn kinds_meta(m: &Model, out: &mut Out) {
         })
         .collect();
     out.meta(format!("kinds {}", kinds.join(",")));
+    // structural facts that known findings are keyed on
+    fn repeated_start(c: &Cons) -> bool {
+        match c {
+            Cons::Cumulative(ts, _, _) => {
+                let mut vars: Vec<usize> = ts.iter().filter(|t| t.1 > 0).map(|t| t.0.var).collect();
+                let n = vars.len();
+                vars.sort();
+                vars.dedup();
+                vars.len() < n
+            }
+            Cons::Implied(_, inner) | Cons::Reif(_, inner) | Cons::Neg(inner) => repeated_start(inner),
+            _ => false,
+        }
+    }
+    if m.cons.iter().any(repeated_start) {
+        out.meta("cumul-repeated-start");
+    }
     let shapes: Vec<String> = m
         .vars
         .iter()
